@@ -319,3 +319,68 @@ Example C12_iterator_fault_example :
   | _ => False
   end.
 Proof. vm_compute. split; [eexists; split; reflexivity|]. split; [eexists; split; reflexivity|reflexivity]. Qed.
+
+(* ================= iterators over a failing source, call by call ================= *)
+(* The iterator theorems of C04/C05 composed with the fault theorems above.  On a well-formed store read
+   through the loader that fails its j-th block load (any j), the first n calls of next either return Some of
+   the first n entries the specification lists, one after the other (and the call after the last one None),
+   or the run of calls fails with exactly the injected error: never another entry, never a wrong None, never
+   a panic. *)
+From Grenad.model Require Import Base Block Reader.
+From Grenad.proofs Require Import ReaderRefine IterCalls.
+
+Theorem C12_range_fault_call_by_call : forall ld j root levels bstore, wf_store ld root levels bstore ->
+  forall lo hi,
+  (forall n, (n <= length (range_spec (content root levels bstore) lo hi))%nat ->
+     (exists it', calls (range_next (cstep (faulty_load ld j) root levels) lo hi) n iter_new
+                  = Done (it', map Some (firstn n (range_spec (content root levels bstore) lo hi)))) \/
+     calls (range_next (cstep (faulty_load ld j) root levels) lo hi) n iter_new = Fail (EIo IO_INJECTED)) /\
+  ((exists it', calls (range_next (cstep (faulty_load ld j) root levels) lo hi)
+                  (S (length (range_spec (content root levels bstore) lo hi))) iter_new
+                = Done (it', map Some (range_spec (content root levels bstore) lo hi) ++ [None])) \/
+   calls (range_next (cstep (faulty_load ld j) root levels) lo hi)
+     (S (length (range_spec (content root levels bstore) lo hi))) iter_new = Fail (EIo IO_INJECTED)).
+Proof. exact range_fault_calls. Qed.
+Print Assumptions C12_range_fault_call_by_call.
+
+Theorem C12_rev_range_fault_call_by_call : forall ld j root levels bstore, wf_store ld root levels bstore ->
+  forall lo hi,
+  (forall n, (n <= length (rev (range_spec (content root levels bstore) lo hi)))%nat ->
+     (exists it', calls (rev_range_next (cstep (faulty_load ld j) root levels) lo hi) n iter_new
+                  = Done (it', map Some (firstn n (rev (range_spec (content root levels bstore) lo hi))))) \/
+     calls (rev_range_next (cstep (faulty_load ld j) root levels) lo hi) n iter_new = Fail (EIo IO_INJECTED)) /\
+  ((exists it', calls (rev_range_next (cstep (faulty_load ld j) root levels) lo hi)
+                  (S (length (rev (range_spec (content root levels bstore) lo hi)))) iter_new
+                = Done (it', map Some (rev (range_spec (content root levels bstore) lo hi)) ++ [None])) \/
+   calls (rev_range_next (cstep (faulty_load ld j) root levels) lo hi)
+     (S (length (rev (range_spec (content root levels bstore) lo hi)))) iter_new = Fail (EIo IO_INJECTED)).
+Proof. exact rev_range_fault_calls. Qed.
+Print Assumptions C12_rev_range_fault_call_by_call.
+
+Theorem C12_prefix_fault_call_by_call : forall ld j root levels bstore, wf_store ld root levels bstore ->
+  forall p,
+  (forall n, (n <= length (prefix_spec (content root levels bstore) p))%nat ->
+     (exists it', calls (prefix_next (cstep (faulty_load ld j) root levels) p) n iter_new
+                  = Done (it', map Some (firstn n (prefix_spec (content root levels bstore) p)))) \/
+     calls (prefix_next (cstep (faulty_load ld j) root levels) p) n iter_new = Fail (EIo IO_INJECTED)) /\
+  ((exists it', calls (prefix_next (cstep (faulty_load ld j) root levels) p)
+                  (S (length (prefix_spec (content root levels bstore) p))) iter_new
+                = Done (it', map Some (prefix_spec (content root levels bstore) p) ++ [None])) \/
+   calls (prefix_next (cstep (faulty_load ld j) root levels) p)
+     (S (length (prefix_spec (content root levels bstore) p))) iter_new = Fail (EIo IO_INJECTED)).
+Proof. exact prefix_fault_calls. Qed.
+Print Assumptions C12_prefix_fault_call_by_call.
+
+Theorem C12_rev_prefix_fault_call_by_call : forall ld j root levels bstore, wf_store ld root levels bstore ->
+  forall p, Forall (fun e => wf_bytes (fst e)) (content root levels bstore) -> wf_bytes p ->
+  (forall n, (n <= length (rev (prefix_spec (content root levels bstore) p)))%nat ->
+     (exists it', calls (rev_prefix_next (cstep (faulty_load ld j) root levels) p) n iter_new
+                  = Done (it', map Some (firstn n (rev (prefix_spec (content root levels bstore) p))))) \/
+     calls (rev_prefix_next (cstep (faulty_load ld j) root levels) p) n iter_new = Fail (EIo IO_INJECTED)) /\
+  ((exists it', calls (rev_prefix_next (cstep (faulty_load ld j) root levels) p)
+                  (S (length (rev (prefix_spec (content root levels bstore) p)))) iter_new
+                = Done (it', map Some (rev (prefix_spec (content root levels bstore) p)) ++ [None])) \/
+   calls (rev_prefix_next (cstep (faulty_load ld j) root levels) p)
+     (S (length (rev (prefix_spec (content root levels bstore) p)))) iter_new = Fail (EIo IO_INJECTED)).
+Proof. exact rev_prefix_fault_calls. Qed.
+Print Assumptions C12_rev_prefix_fault_call_by_call.
